@@ -11,7 +11,10 @@ fn h(k: u8, hv: u32) -> Hashed<u8> {
 
 pub fn vec2_case(case: &J) -> J {
     use starlark_map::vec2::Vec2;
-    let mut v: Vec2<u8, u16> = Vec2::new();
+    let mut v: Vec2<u8, u16> = match case["capacity"].as_u64() {
+        Some(c) => Vec2::with_capacity(c as usize),
+        None => Vec2::new(),
+    };
     let mut model: Vec<(u8, u16)> = Vec::new();
     for op in case["ops"].as_array().cloned().unwrap_or_default() {
         let name = op["op"].as_str().unwrap_or("");
@@ -51,6 +54,51 @@ pub fn vec2_case(case: &J) -> J {
             "sort" => {
                 v.sort_by(|x, y| x.0.cmp(y.0));
                 model.sort_by(|x, y| x.0.cmp(&y.0));
+            }
+            "retain_even" => {
+                v.retain(|a, _b| *a & 1 == 0);
+                model.retain(|e| e.0 & 1 == 0);
+            }
+            "shrink" => {
+                v.shrink_to_fit();
+            }
+            "clone_eq" => {
+                let mut w = v.clone();
+                if !(v == w) {
+                    return json!({"mismatch": "Vec2 clone is not == the original"});
+                }
+                let wi: Vec<(u8, u16)> = w.iter().map(|(a, b)| (*a, *b)).collect();
+                if wi != model {
+                    return json!({"mismatch": format!("Vec2 clone holds {:?}, model {:?}", wi, model)});
+                }
+                if w.pop().is_some() && v == w {
+                    return json!({"mismatch": "Vec2 == its clone after the clone lost an element"});
+                }
+            }
+            "into_iter_fwd" => {
+                let got: Vec<(u8, u16)> = v.clone().into_iter().collect();
+                if got != model {
+                    return json!({"mismatch": format!("Vec2 by-value iteration {:?}, model {:?}", got, model)});
+                }
+            }
+            "into_iter_ends" => {
+                // by-value iteration alternating next / next_back; the first end is given by `i` (0 = front)
+                let mut it = v.clone().into_iter();
+                let mut mit = model.clone().into_iter();
+                let mut front = i == 0;
+                loop {
+                    if it.len() != mit.len() {
+                        return json!({"mismatch": format!("Vec2 IntoIter::len {} vs model {}", it.len(), mit.len())});
+                    }
+                    let (r, mr) = if front { (it.next(), mit.next()) } else { (it.next_back(), mit.next_back()) };
+                    if r != mr {
+                        return json!({"mismatch": format!("Vec2 IntoIter::{} returned {:?}, model {:?}", if front { "next" } else { "next_back" }, r, mr)});
+                    }
+                    if mr.is_none() {
+                        break;
+                    }
+                    front = !front;
+                }
             }
             _ => return json!({"machinery_error": format!("unknown vec2 op {name}")}),
         }
@@ -150,6 +198,29 @@ pub fn map_case(case: &J) -> J {
             "clear" => {
                 m.clear();
                 model.clear();
+            }
+            "eq_prefix" => {
+                // the map vs the map of its first len-1 entries and vs the empty map; and vs the same entries reversed
+                let mut p: SmallMap<u8, u8> = SmallMap::new();
+                for e in model.iter().take(model.len().saturating_sub(1)) {
+                    p.insert_hashed_unique_unchecked(h(e.0, e.1), e.2);
+                }
+                let e: SmallMap<u8, u8> = SmallMap::new();
+                if !model.is_empty() {
+                    if m.eq_ordered(&p) || p.eq_ordered(&m) || m == p || p == m {
+                        return json!({"mismatch": format!("a map with {} entries equals (== or eq_ordered) the map of its first {} entries", model.len(), model.len() - 1)});
+                    }
+                    if m.eq_ordered(&e) || e.eq_ordered(&m) || m == e || e == m {
+                        return json!({"mismatch": format!("a map with {} entries equals (== or eq_ordered) the empty map", model.len())});
+                    }
+                }
+                let mut r: SmallMap<u8, u8> = SmallMap::new();
+                for e in model.iter().rev() {
+                    r.insert_hashed_unique_unchecked(h(e.0, e.1), e.2);
+                }
+                if !(m == r) || (model.len() >= 2 && m.eq_ordered(&r)) || !m.eq_ordered(&m) {
+                    return json!({"mismatch": "== / eq_ordered wrong on the reversed map"});
+                }
             }
             _ => return json!({"machinery_error": format!("unknown map op {name}")}),
         }
